@@ -404,6 +404,11 @@ func (f *Frame) stdModel(in ssa.Instruction, callee *ssa.Function, cc *ssa.CallC
 		sT, pT := args[0][0], args[1][0]
 		hp := c.strPrefix(sT, pT, 0)
 		return []Term{Ite(hp, c.strSub(sT, c.strLen(pT), c.strLen(sT)), sT)}, true
+	case "strings.IndexRune", "strings.IndexByte", "strings.Index", "strings.LastIndex", "strings.LastIndexByte":
+		c.note("assumed", "assumed contract: strings.Index*/LastIndex*(s, x) returns -1 or an index below len(s)")
+		r := c.fresh("index", SInt)
+		st.assume(c, And(Ge(r, IntLit(-1)), Lt(r, Ite(Gt(c.strLen(args[0][0]), IntLit(0)), c.strLen(args[0][0]), IntLit(0)))))
+		return []Term{r}, true
 	case "strings.IndexAny":
 		if k, ok := cc.Args[1].(*ssa.Const); ok && k.Value != nil {
 			chars := constant.StringVal(k.Value)
